@@ -57,7 +57,7 @@ declare_class(
 )
 # a text file opened for writing: the ghost list of chunks passed to write(), in order
 declare_class("TextOut", fields={"g_out": TList(STR)})
-declare_class("AssemblyStats", fields={"cuts": INT, "breaks": INT, "joins": INT})
+declare_class("AssemblyStats", fields={"cuts": INT, "breaks": INT, "joins": INT, "autosome_prefix": STR})
 declare_class(
     "BuildAssembly",
     bases=["Assembly"],
